@@ -468,3 +468,225 @@ func verifControlGroupHandover[T any]() func(Observable[T]) Observable[Observabl
 	}
 }
 `
+
+// NO-DUPLICATE-FORWARD: one value in, at most one copy out per receiver on any path.
+func ruleNoDuplicateForward() check.Rule {
+	return check.Rule{
+		Name:        "NO-DUPLICATE-FORWARD",
+		NeedControl: true,
+		Doc:         "in the next callback of an upstream observer, the callback's own value parameter is not sent twice to the same kind of receiver on one path: two distinct Next calls that carry the unmodified value parameter, through the same receiver variable, one reachable from the other (a value re-sent to the window that replaced a closed one, after it was already delivered to the closed one's consumer) duplicate the value downstream. Loops that repeat one call site are a different construct and are not judged",
+		Run: func(c *check.Ctx) {
+			m := c.M
+			n := 0
+			for _, sc := range m.SCs {
+				armed := c.Armed(sc)
+				info := sc.Pkg.TypesInfo
+				for _, s := range sc.SubSites {
+					if s.Observer == nil || s.Observer.Kind != model.AVObserver {
+						continue
+					}
+					slot := s.Observer.Slots[model.SlotNext]
+					if slot == nil || slot.Lit == nil || slot.Lit.Type.Params == nil {
+						continue
+					}
+					// the value parameter: the last parameter that is not a context
+					var valueParam types.Object
+					for _, f := range slot.Lit.Type.Params.List {
+						for _, id := range f.Names {
+							if v, ok := info.Defs[id].(*types.Var); ok && !model.IsContext(v.Type()) {
+								valueParam = v
+							}
+						}
+					}
+					if valueParam == nil {
+						continue
+					}
+					type send struct {
+						call *ast.CallExpr
+						recv types.Object
+					}
+					var sends []send
+					ast.Inspect(slot.Lit.Body, func(x ast.Node) bool {
+						if l, ok := x.(*ast.FuncLit); ok && l != slot.Lit {
+							return false
+						}
+						call, ok := x.(*ast.CallExpr)
+						if !ok {
+							return true
+						}
+						name, isObs := m.Obj.ObserverMethods[model.Callee(info, call)]
+						if !isObs || notifKind(name) != model.EmitNext || len(call.Args) == 0 {
+							return true
+						}
+						last, ok := ast.Unparen(call.Args[len(call.Args)-1]).(*ast.Ident)
+						if !ok || objOf(info, last) != valueParam {
+							return true
+						}
+						sel, ok := ast.Unparen(call.Fun).(*ast.SelectorExpr)
+						if !ok {
+							return true
+						}
+						if rid, _ := rootIdent(sel.X); rid != nil {
+							sends = append(sends, send{call, objOf(info, rid)})
+						}
+						return true
+					})
+					for i, a := range sends {
+						for j, b := range sends {
+							if i == j || a.recv == nil || a.recv != b.recv || a.call.Pos() >= b.call.Pos() {
+								continue
+							}
+							n++
+							key := fmt.Sprintf("%s/next/duplicate-%s#%d", s.Key, a.recv.Name(), n)
+							if reachableAfter(slot.Lit.Body, a.call, b.call) {
+								c.Report(armed, key, b.call.Pos(), "the value received by this callback was already sent through %s at %s on a path that reaches this second send: it is delivered twice", a.recv.Name(), m.Prog.Rel(a.call.Pos()))
+							} else if armed {
+								c.OK(key, b.call.Pos(), "the two sends of the value are on exclusive paths")
+							}
+						}
+					}
+				}
+			}
+			c.Inc("value_send_pairs", n)
+		},
+	}
+}
+
+// GET-OR-CREATE: the create half runs on the miss edge of the lookup only.
+func ruleGetOrCreate() check.Rule {
+	return check.Rule{
+		Name:        "GET-OR-CREATE",
+		NeedControl: true,
+		Doc:         "in a callback that looks a key up in a table it keeps (`v, ok := table.Load(key)` on a sync.Map, or the comma-ok index of a map) and stores a freshly created value under the same key in the same function, the store is reached only on the miss edge of that lookup (`!ok`): a creation that also runs when the key is present — because a second condition was folded into the test — replaces the live entry, so the key gets a second group / window / limiter with fresh state",
+		Run: func(c *check.Ctx) {
+			m := c.M
+			n := 0
+			for _, sc := range m.SCs {
+				armed := c.Armed(sc)
+				info := sc.Pkg.TypesInfo
+				ast.Inspect(sc.Lit.Body, func(x ast.Node) bool {
+					lit, ok := x.(*ast.FuncLit)
+					if !ok {
+						return true
+					}
+					// lookups in this literal
+					ast.Inspect(lit.Body, func(y ast.Node) bool {
+						if l, ok := y.(*ast.FuncLit); ok && l != lit {
+							return false
+						}
+						as, ok := y.(*ast.AssignStmt)
+						if !ok || len(as.Lhs) != 2 || len(as.Rhs) != 1 {
+							return true
+						}
+						okID, isID := as.Lhs[1].(*ast.Ident)
+						if !isID || okID.Name == "_" {
+							return true
+						}
+						var table types.Object
+						var keyExpr ast.Expr
+						switch r := ast.Unparen(as.Rhs[0]).(type) {
+						case *ast.CallExpr:
+							if model.IsMethod(model.Callee(info, r), "sync", "Map", "Load") && len(r.Args) == 1 {
+								if sel, ok := ast.Unparen(r.Fun).(*ast.SelectorExpr); ok {
+									if id, _ := rootIdent(sel.X); id != nil {
+										table, keyExpr = objOf(info, id), r.Args[0]
+									}
+								}
+							}
+						case *ast.IndexExpr:
+							if t := info.TypeOf(r.X); t != nil {
+								if _, isMap := t.Underlying().(*types.Map); isMap {
+									if id, _ := rootIdent(r.X); id != nil {
+										table, keyExpr = objOf(info, id), r.Index
+									}
+								}
+							}
+						}
+						okObj := objOf(info, okID)
+						if table == nil || okObj == nil {
+							return true
+						}
+						// stores under the same key in the same literal
+						ast.Inspect(lit.Body, func(z ast.Node) bool {
+							if l, ok := z.(*ast.FuncLit); ok && l != lit {
+								return false
+							}
+							var storeKey ast.Expr
+							var storeNode ast.Node
+							switch st := z.(type) {
+							case *ast.CallExpr:
+								if model.IsMethod(model.Callee(info, st), "sync", "Map", "Store") && len(st.Args) == 2 {
+									if sel, ok := ast.Unparen(st.Fun).(*ast.SelectorExpr); ok {
+										if id, _ := rootIdent(sel.X); id != nil && objOf(info, id) == table {
+											storeKey, storeNode = st.Args[0], st
+										}
+									}
+								}
+							case *ast.AssignStmt:
+								if len(st.Lhs) == 1 {
+									if ix, ok := ast.Unparen(st.Lhs[0]).(*ast.IndexExpr); ok {
+										if id, _ := rootIdent(ix.X); id != nil && objOf(info, id) == table {
+											storeKey, storeNode = ix.Index, st
+										}
+									}
+								}
+							}
+							if storeNode == nil || storeNode.Pos() < as.Pos() || types.ExprString(storeKey) != types.ExprString(keyExpr) {
+								return true
+							}
+							n++
+							key := fmt.Sprintf("%s/get-or-create-%s#%d", sc, table.Name(), n)
+							miss := func(e ast.Expr) int {
+								if id, ok := ast.Unparen(e).(*ast.Ident); ok && objOf(info, id) == okObj {
+									return -1 // ok being false is the miss
+								}
+								return 0
+							}
+							if guardedBy(lit.Body, storeNode, miss) {
+								if armed {
+									c.OK(key, storeNode.Pos(), "the entry is created on the miss edge of the lookup only")
+								}
+							} else {
+								c.Report(armed, key, storeNode.Pos(), "a new entry is stored under %s on a path where the lookup of that key may have succeeded: the live entry is replaced and the key gets a second value with fresh state", types.ExprString(keyExpr))
+							}
+							return true
+						})
+						return true
+					})
+					return true
+				})
+			}
+			c.Inc("get_or_create_sites", n)
+		},
+	}
+}
+
+const controlsC05d = `
+func verifControlDuplicateAndRecreate[T any](keyOf func(T) string) func(Observable[T]) Observable[Observable[T]] {
+	return func(source Observable[T]) Observable[Observable[T]] {
+		return NewUnsafeObservableWithContext(func(subscriberCtx context.Context, destination Observer[Observable[T]]) Teardown {
+			var groups sync.Map
+			sub := source.SubscribeWithContext(subscriberCtx, NewObserverWithContext(
+				func(ctx context.Context, value T) {
+					key := keyOf(value)
+					g, ok := groups.Load(key)
+					if ok && !g.(Subject[T]).IsClosed() {
+						g.(Observer[T]).NextWithContext(ctx, value)
+					} else {
+						subject := NewUnicastSubject[T](UnicastSubjectUnlimitedBufferSize)
+						groups.Store(key, subject)
+						subject.NextWithContext(ctx, value)
+						destination.NextWithContext(ctx, subject)
+						if subject.IsClosed() {
+							subject.NextWithContext(ctx, value)
+						}
+					}
+				},
+				destination.ErrorWithContext,
+				destination.CompleteWithContext,
+			))
+			return sub.Unsubscribe
+		})
+	}
+}
+`
